@@ -48,6 +48,9 @@ theorem wrapU_nat_mod (bits : Nat) (v : Nat) : wrapU bits (v : Int) = v % 2 ^ bi
   have : ((v : Int) % (2 ^ bits : Int)) = ((v % 2 ^ bits : Nat) : Int) := by push_cast; rfl
   rw [this]; exact Int.toNat_natCast _
 
+theorem sext_small' (v : Nat) (h : v < 2 ^ 31) : sext 32 v = v := by
+  unfold sext; simp; omega
+
 /-- reading a field that was appended in front -/
 theorem cut_append (f r : List Byte) (n : Nat) (h : f.length = n) : cut n (f ++ r) = (f, r) := by
   subst h; simp [cut]
